@@ -547,6 +547,7 @@ func c17r1(c *Ctx) {
 		"(*pilot/pkg/networking/core.ConfigGeneratorImpl).deltaFromDestinationRules|UnsortedList|returned":      "the returned names are inserted into a set in BuildDeltaClusters and the response uses sets.SortedList of it (22 removed names, one order over 300 generations)",
 		"(*pilot/pkg/networking/core.ConfigGeneratorImpl).deltaFromServiceDiff|UnsortedList|returned":           "same: set insert + SortedList in BuildDeltaClusters",
 		"(*pilot/pkg/networking/core.ConfigGeneratorImpl).deltaFromServiceDiff|param serviceClusters|local deletedClusters": "same: set insert + SortedList in BuildDeltaClusters",
+		"(*pilot/pkg/networking/core.ConfigGeneratorImpl).deltaFromServiceDiff|local map|local deletedClusters": "same (the clusters of a service whose imported ports changed): set insert + SortedList in BuildDeltaClusters; the services built from this loop are sorted by host name in the function",
 		"(*pilot/pkg/networking/core.ConfigGeneratorImpl).deltaFromServices|UnsortedList|returned":              "same: set insert + SortedList in BuildDeltaClusters",
 		"(*pilot/pkg/networking/core.ConfigGeneratorImpl).deltaFromServices|local map|local deletedClusters":    "same: set insert + SortedList in BuildDeltaClusters",
 		"(*pilot/pkg/networking/grpcgen.GrpcConfigGenerator).Generate|UnsortedList|passed to BuildListeners":     "the names only fill a map (newListenerNameFilter); outbound listeners follow SidecarScope.Services() x sets.SortedList(RequestedNames)",
